@@ -179,7 +179,16 @@ func c06Run(r *ev.Run, c *mc.Ctx, wk *c06Worker, sc *c06Scenario, img []byte) c0
 	var h2 *sdb.Database
 	h2Locked := false
 	taint := "" // set when a same-process handle step dropped the lock (known finding): downstream checks are consequences
-	if strings.Contains(sc.others, "W") {
+	if strings.Contains(sc.others, "WX") {
+		// a writer that takes the EXCLUSIVE lock at once: a read attempted meanwhile must fail and leave nothing locked
+		wk.W.MustOK("open " + path)
+		wSteps = []step{
+			{"W", "BEGIN EXCLUSIVE", func() string { s, _ := wk.W.Do("exec BEGIN EXCLUSIVE"); return s }},
+			{"W", "INSERT", func() string { s, _ := wk.W.Do("exec INSERT INTO t VALUES (98, 'wx', 'p')"); return s }},
+			{"W", "COMMIT", func() string { s, _ := wk.W.Do("exec COMMIT"); return s }},
+		}
+		defer wk.W.Do("close")
+	} else if strings.Contains(sc.others, "W") {
 		wk.W.MustOK("open " + path)
 		wSteps = []step{
 			{"W", "BEGIN IMMEDIATE", func() string { s, _ := wk.W.Do("exec BEGIN IMMEDIATE"); return s }},
@@ -436,6 +445,14 @@ func c06Run(r *ev.Run, c *mc.Ctx, wk *c06Worker, sc *c06Scenario, img []byte) c0
 			alts = append(alts, alt{"W:" + s.name, func() {
 				inInterval := h1.started && !h1.finished && h1.locked
 				st := s.do()
+				if s.name == "BEGIN EXCLUSIVE" && st == "busy" {
+					wBlocked = true
+					if h1.finished && !h2Locked && taint == "" && h3i != 1 && h3i != 2 {
+						violation("C06:writer-blocked-after-return:"+opKind(sc.op.name), "after the call returned a SQLite writer cannot take the EXCLUSIVE lock (SQLITE_BUSY)")
+						wi = len(wSteps)
+					}
+					return
+				}
 				if s.name == "COMMIT" {
 					if st == "ok" && inInterval && taint == "" {
 						violation("C06:writer-committed-during-read:"+opKind(sc.op.name), "a SQLite writer in another process committed while the call was between its lock and its unlock")
@@ -600,6 +617,9 @@ func runC06(r *ev.Run) {
 		}
 		if op.name == "SelectRowid" {
 			scen = append(scen, c06Scenario{op: op, others: "W", grown: true})
+		}
+		if op.name == "SelectDone" || op.name == "Columns" || op.name == "IndexedSelect(w)" {
+			scen = append(scen, c06Scenario{op: op, others: "WX"})
 		}
 		if op.name == tripleOp {
 			scen = append(scen, c06Scenario{op: op, others: "H2+W"}, c06Scenario{op: op, others: "H3+W"})
